@@ -1,7 +1,7 @@
 (* Proofs/RegistryBase.v -- lemmas about the building blocks of Model/Registry.v:
    equality tests, insertion-ordered dicts, fullpath (walk up), subtree (walk down), the registry walks. *)
 From Coq Require Import ZArith NArith List Bool Lia.
-From PydoctorVerif Require Import Base.Sexp Model.Registry.
+From PydoctorVerif Require Import Base.Sexp Model.Registry Spec.RegistryInv.
 Import ListNotations.
 Local Open Scope N_scope.
 
@@ -161,3 +161,305 @@ Section AssocLemmas.
       rewrite aget_aset_ne in H by assumption. right. split; [congruence | apply aget_in; exact H].
   Qed.
 End AssocLemmas.
+
+(* registry / contents instances *)
+Definition rget_rset_eq := @aget_aset_eq path id path_eqb path_eqb_eq.
+Definition rget_rset_ne := @aget_aset_ne path id path_eqb path_eqb_eq.
+Definition rget_rdel_eq := @aget_adel_eq path id path_eqb.
+Definition rget_rdel_ne := @aget_adel_ne path id path_eqb path_eqb_eq.
+Definition cget_cset_eq := @aget_aset_eq name id name_eqb name_eqb_eq.
+Definition cget_cset_ne := @aget_aset_ne name id name_eqb name_eqb_eq.
+
+(* ------------------------------------------------------------------ fullName: the walk up *)
+Lemma fullpath_f_mono : forall F st o p, fullpath_f F st o = Some p -> forall F', (F <= F')%nat -> fullpath_f F' st o = Some p.
+Proof.
+  induction F as [|F IH]; intros st o p H F' Hle; [discriminate|].
+  destruct F' as [|F']; [lia|]. cbn in *.
+  destruct (oparent (st o)) as [q|]; [|exact H].
+  destruct (fullpath_f F st q) as [pq|] eqn:E; [|discriminate].
+  rewrite (IH st q pq E F') by lia. exact H.
+Qed.
+
+Lemma fullpath_f_len : forall F st o p, fullpath_f F st o = Some p -> (1 <= length p <= F)%nat.
+Proof.
+  induction F as [|F IH]; intros st o p H; [discriminate|]. cbn in H.
+  destruct (oparent (st o)) as [q|].
+  - destruct (fullpath_f F st q) as [pq|] eqn:E; [|discriminate]. inversion H; subst.
+    rewrite app_length. cbn. specialize (IH _ _ _ E). lia.
+  - inversion H; subst. cbn. lia.
+Qed.
+
+Lemma fullpath_f_nonempty : forall F st o p, fullpath_f F st o = Some p -> p <> [].
+Proof. intros F st o p H Hp. apply fullpath_f_len in H. subst. cbn in H. lia. Qed.
+
+(* unfolding at an object that has a parent / has none *)
+Lemma fullpath_f_child : forall F st o q p, oparent (st o) = Some q -> fullpath_f F st o = Some p ->
+    exists pq, fullpath_f F st q = Some pq /\ p = pq ++ [oname (st o)].
+Proof.
+  intros F st o q p Hq H. destruct F as [|F]; [discriminate|]. cbn in H. rewrite Hq in H.
+  destruct (fullpath_f F st q) as [pq|] eqn:E; [|discriminate]. inversion H; subst.
+  exists pq. split; [apply (fullpath_f_mono _ _ _ _ E); lia | reflexivity].
+Qed.
+Lemma fullpath_f_root : forall F st o p, oparent (st o) = None -> fullpath_f F st o = Some p -> p = [oname (st o)].
+Proof. intros F st o p Hq H. destruct F as [|F]; [discriminate|]. cbn in H. rewrite Hq in H. congruence. Qed.
+Lemma fullpath_f_child_intro : forall F st o q pq, oparent (st o) = Some q -> fullpath_f F st q = Some pq ->
+    fullpath_f (S F) st o = Some (pq ++ [oname (st o)]).
+Proof. intros F st o q pq Hq H. cbn. rewrite Hq, H. reflexivity. Qed.
+
+(* fullName only reads name and parent, and only of the ancestors *)
+Lemma fullpath_f_frame : forall st st' (P : id -> Prop),
+    (forall x q, P x -> oparent (st x) = Some q -> P q) ->
+    (forall x, P x -> oname (st' x) = oname (st x) /\ oparent (st' x) = oparent (st x)) ->
+    forall F o, P o -> fullpath_f F st' o = fullpath_f F st o.
+Proof.
+  intros st st' P Hcl Hag. induction F as [|F IH]; intros o Ho; [reflexivity|]. cbn.
+  destruct (Hag o Ho) as [Hn Hp]. rewrite Hn, Hp.
+  destruct (oparent (st o)) as [q|] eqn:E; [|reflexivity].
+  rewrite (IH q (Hcl _ _ Ho E)). reflexivity.
+Qed.
+Lemma fullpath_f_ext : forall st st',
+    (forall x, oname (st' x) = oname (st x) /\ oparent (st' x) = oparent (st x)) ->
+    forall F o, fullpath_f F st' o = fullpath_f F st o.
+Proof. intros st st' H F o. apply (fullpath_f_frame st st' (fun _ => True)); auto. Qed.
+
+
+Lemma anc_trans : forall st a b c, anc st a b -> anc st b c -> anc st a c.
+Proof. intros st a b c Hab Hbc. induction Hbc; [exact Hab | eapply anc_step; eauto]. Qed.
+
+(* the path of an ancestor is a prefix *)
+Lemma anc_prefix : forall st a x, anc st a x -> forall F px, fullpath_f F st x = Some px ->
+    exists pa r, fullpath_f F st a = Some pa /\ px = pa ++ r.
+Proof.
+  intros st a x H. induction H as [|x q Hq Ha IH]; intros F px Hpx.
+  - exists px, []. rewrite app_nil_r. auto.
+  - destruct (fullpath_f_child _ _ _ _ _ Hq Hpx) as [pq [Hpq ->]].
+    destruct (IH _ _ Hpq) as [pa [r [Hpa ->]]]. exists pa, (r ++ [oname (st x)]). rewrite app_assoc. auto.
+Qed.
+Lemma anc_len : forall st a x F pa px, anc st a x -> fullpath_f F st x = Some px -> fullpath_f F st a = Some pa ->
+    (length pa <= length px)%nat.
+Proof.
+  intros st a x F pa px H Hx Ha. destruct (anc_prefix _ _ _ H _ _ Hx) as [pa' [r [Ha' ->]]].
+  rewrite Ha in Ha'. inversion Ha'; subst. rewrite app_length. lia.
+Qed.
+(* no object is a proper ancestor of its own parent *)
+Lemma anc_parent_absurd : forall st a q F pa, oparent (st a) = Some q -> fullpath_f F st a = Some pa -> ~ anc st a q.
+Proof.
+  intros st a q F pa Hq Ha H. destruct (fullpath_f_child _ _ _ _ _ Hq Ha) as [pq [Hpq ->]].
+  assert (L := anc_len _ _ _ _ _ _ H Hpq Ha). rewrite app_length in L. cbn in L. lia.
+Qed.
+
+(* re-keying: if only the name/parent of `a` changes, the paths below `a` keep their suffix *)
+Lemma anc_suffix : forall st st' a,
+    (forall x, x <> a -> oname (st' x) = oname (st x) /\ oparent (st' x) = oparent (st x)) ->
+    forall x, anc st a x -> forall F F' px pa pa',
+        fullpath_f F st x = Some px -> fullpath_f F st a = Some pa -> fullpath_f F' st' a = Some pa' ->
+        exists r, px = pa ++ r /\ fullpath_f (F' + length r) st' x = Some (pa' ++ r).
+Proof.
+  intros st st' a Hag x H. induction H as [|x q Hq Ha IH]; intros F F' px pa pa' Hx Hpa Hpa'.
+  - rewrite Hx in Hpa. inversion Hpa; subst. exists []. rewrite !app_nil_r. split; [reflexivity|].
+    cbn. rewrite Nat.add_0_r. exact Hpa'.
+  - destruct (N.eq_dec x a) as [->|Hne].
+    + rewrite Hx in Hpa. inversion Hpa; subst. exists []. rewrite !app_nil_r. split; [reflexivity|].
+      cbn. rewrite Nat.add_0_r. exact Hpa'.
+    + destruct (fullpath_f_child _ _ _ _ _ Hq Hx) as [pq [Hpq ->]].
+      destruct (IH _ _ _ _ _ Hpq Hpa Hpa') as [r [-> Hr]].
+      exists (r ++ [oname (st x)]). split; [rewrite app_assoc; reflexivity|].
+      destruct (Hag x Hne) as [Hn Hp]. rewrite app_length. cbn [length].
+      replace (F' + (length r + 1))%nat with (S (F' + length r)) by lia.
+      rewrite app_assoc. rewrite <- Hn. apply (fullpath_f_child_intro _ st' x q); [rewrite Hp; exact Hq | exact Hr].
+Qed.
+
+(* ------------------------------------------------------------------ the walk down *)
+
+Lemma desc_trans_head : forall st a n c x, In (n, c) (ocont (st a)) -> desc st c x -> desc st a x.
+Proof.
+  intros st a n c x Hin H. induction H as [|y n' c' Hy IH Hin']; [eapply desc_step; [apply desc_refl | exact Hin] |].
+  eapply desc_step; eauto.
+Qed.
+
+Lemma oconcat_in {X Y} (f : X -> option (list Y)) : forall l r y, oconcat f l = Some r -> In y r ->
+    exists x rx, In x l /\ f x = Some rx /\ In y rx.
+Proof.
+  induction l as [|x t IH]; cbn; intros r y H Hy.
+  - inversion H; subst. destruct Hy.
+  - destruct (f x) as [a|] eqn:E; [|discriminate]. destruct (oconcat f t) as [b|] eqn:E2; [|discriminate].
+    inversion H; subst. apply in_app_iff in Hy. destruct Hy as [Hy|Hy].
+    + exists x, a. auto.
+    + destruct (IH _ _ eq_refl Hy) as [x' [rx [H1 [H2 H3]]]]. exists x', rx. auto.
+Qed.
+Lemma oconcat_in_rev {X Y} (f : X -> option (list Y)) : forall l r x rx y, oconcat f l = Some r ->
+    In x l -> f x = Some rx -> In y rx -> In y r.
+Proof.
+  induction l as [|x0 t IH]; cbn; intros r x rx y H Hx Hfx Hy; [destruct Hx|].
+  destruct (f x0) as [a|] eqn:E; [|discriminate]. destruct (oconcat f t) as [b|] eqn:E2; [|discriminate].
+  inversion H; subst. apply in_app_iff. destruct Hx as [->|Hx].
+  - rewrite Hfx in E. inversion E; subst. left. exact Hy.
+  - right. eapply IH; eauto.
+Qed.
+Lemma oconcat_some {X Y} (f : X -> option (list Y)) : forall l r x, oconcat f l = Some r -> In x l -> exists rx, f x = Some rx.
+Proof.
+  induction l as [|x0 t IH]; cbn; intros r x H Hx; [destruct Hx|].
+  destruct (f x0) as [a|] eqn:E; [|discriminate]. destruct (oconcat f t) as [b|] eqn:E2; [|discriminate].
+  destruct Hx as [->|Hx]; [eauto | eapply IH; eauto].
+Qed.
+Lemma oconcat_ext {X Y} (f g : X -> option (list Y)) : forall l, (forall x, In x l -> f x = g x) -> oconcat f l = oconcat g l.
+Proof.
+  induction l as [|x t IH]; cbn; intros H; [reflexivity|].
+  rewrite (H x) by (left; reflexivity). rewrite IH by (intros; apply H; right; assumption). reflexivity.
+Qed.
+
+Lemma subtree_f_head : forall F st a T, subtree_f F st a = Some T -> In a T.
+Proof.
+  intros F st a T H. destruct F as [|F]; [discriminate|]. cbn in H.
+  destruct (oconcat _ _); [|discriminate]. inversion H. left. reflexivity.
+Qed.
+
+(* soundness: everything visited is reachable through contents *)
+Lemma subtree_f_desc : forall F st a T, subtree_f F st a = Some T -> forall x, In x T -> desc st a x.
+Proof.
+  induction F as [|F IH]; intros st a T H x Hx; [discriminate|]. cbn in H.
+  destruct (oconcat (subtree_f F st) (map snd (ocont (st a)))) as [l|] eqn:E; [|discriminate].
+  inversion H; subst. destruct Hx as [->|Hx]; [apply desc_refl|].
+  destruct (oconcat_in _ _ _ _ E Hx) as [c [rc [Hc [Hrc Hin]]]].
+  apply in_map_iff in Hc. destruct Hc as [[n c'] [Hc1 Hc2]]. cbn in Hc1. subst c'.
+  eapply desc_trans_head; [exact Hc2 | eapply IH; eauto].
+Qed.
+
+(* completeness: the visited set is closed under contents, hence contains everything reachable *)
+Lemma subtree_f_closed : forall F st a T, subtree_f F st a = Some T ->
+    forall y n c, In y T -> In (n, c) (ocont (st y)) -> In c T.
+Proof.
+  induction F as [|F IH]; intros st a T H y n c Hy Hc; [discriminate|]. cbn in H.
+  destruct (oconcat (subtree_f F st) (map snd (ocont (st a)))) as [l|] eqn:E; [|discriminate].
+  inversion H; subst. right. destruct Hy as [->|Hy].
+  - assert (Hin : In c (map snd (ocont (st y)))) by (apply in_map_iff; exists (n, c); auto).
+    destruct (oconcat_some _ _ _ _ E Hin) as [rc Hrc].
+    eapply oconcat_in_rev; [exact E | exact Hin | exact Hrc | eapply subtree_f_head; exact Hrc].
+  - destruct (oconcat_in _ _ _ _ E Hy) as [c0 [r0 [Hc0 [Hr0 Hin0]]]].
+    eapply oconcat_in_rev; [exact E | exact Hc0 | exact Hr0 | eapply IH; eauto].
+Qed.
+Lemma subtree_f_complete : forall F st a T, subtree_f F st a = Some T -> forall x, desc st a x -> In x T.
+Proof.
+  intros F st a T H x Hd. induction Hd as [|y n c Hy IH Hc]; [eapply subtree_f_head; exact H|].
+  eapply subtree_f_closed; eauto.
+Qed.
+
+(* the walk only reads `contents` *)
+Lemma subtree_f_ext : forall st st', (forall x, ocont (st' x) = ocont (st x)) ->
+    forall F a, subtree_f F st' a = subtree_f F st a.
+Proof.
+  intros st st' H. induction F as [|F IH]; intros a; [reflexivity|]. cbn. rewrite H.
+  rewrite (oconcat_ext (subtree_f F st') (subtree_f F st)) by (intros; apply IH). reflexivity.
+Qed.
+(* ... and only of the objects it visits *)
+Lemma subtree_f_local : forall st st' F a T, subtree_f F st a = Some T ->
+    (forall x, In x T -> ocont (st' x) = ocont (st x)) -> subtree_f F st' a = Some T.
+Proof.
+  intros st st'. induction F as [|F IH]; intros a T H Hag; [discriminate|]. cbn in *.
+  destruct (oconcat (subtree_f F st) (map snd (ocont (st a)))) as [l|] eqn:E; [|discriminate].
+  inversion H; subst. rewrite (Hag a) by (left; reflexivity).
+  rewrite (oconcat_ext (subtree_f F st') (subtree_f F st)); [rewrite E; reflexivity|].
+  intros c Hc. destruct (oconcat_some _ _ _ _ E Hc) as [rc Hrc]. rewrite Hrc. apply IH; [exact Hrc|].
+  intros x Hx. apply Hag. right. eapply oconcat_in_rev; eauto.
+Qed.
+
+(* ------------------------------------------------------------------ the registry walks *)
+Lemma adel_strict_some : forall k (m m' : registry), adel_strict path_eqb k m = Some m' -> m' = rdel k m.
+Proof. intros k m m' H. unfold adel_strict in H. destruct (aget path_eqb k m); inversion H. reflexivity. Qed.
+
+Lemma del_walk_spec : forall s T m m', del_walk s T m = Some m' ->
+    forall k x, rget k m' = Some x <-> (rget k m = Some x /\ forall y, In y T -> fullpath s y <> Some k).
+Proof.
+  intros s. induction T as [|x0 t IH]; cbn; intros m m' H k x.
+  - inversion H; subst. split; [intros; split; [assumption | intros y []] | intros [H1 _]; exact H1].
+  - destruct (fullpath s x0) as [k0|] eqn:E0; [|discriminate].
+    destruct (adel_strict path_eqb k0 m) as [m1|] eqn:E1; [|discriminate].
+    apply adel_strict_some in E1. subst m1. rewrite (IH _ _ H k x). split.
+    + intros [H1 H2]. destruct (path_eq_dec k0 k) as [->|Hne].
+      * unfold rget, rdel in H1. rewrite rget_rdel_eq in H1. discriminate.
+      * unfold rget, rdel in H1. rewrite (rget_rdel_ne _ _ _ Hne) in H1. split; [exact H1|].
+        intros y [<-|Hy]; [rewrite E0; congruence | apply H2; exact Hy].
+    + intros [H1 H2]. assert (Hne : k0 <> k) by (intros ->; apply (H2 x0); [left; reflexivity | exact E0]).
+      split; [unfold rget, rdel; rewrite (rget_rdel_ne _ _ _ Hne); exact H1 | intros y Hy; apply H2; right; exact Hy].
+Qed.
+Lemma del_walk_nodup : forall s T m m', del_walk s T m = Some m' -> NoDup (map fst m) -> NoDup (map fst m').
+Proof.
+  intros s. induction T as [|x0 t IH]; cbn; intros m m' H Hnd; [inversion H; subst; exact Hnd|].
+  destruct (fullpath s x0) as [k0|]; [|discriminate].
+  destruct (adel_strict path_eqb k0 m) as [m1|] eqn:E1; [|discriminate].
+  apply adel_strict_some in E1. subst m1. apply (IH _ _ H). apply nodup_adel. exact Hnd.
+Qed.
+
+Lemma set_walk_sound : forall s T m m', set_walk s T m = Some m' ->
+    forall k x, rget k m' = Some x -> (In x T /\ fullpath s x = Some k) \/ rget k m = Some x.
+Proof.
+  intros s. induction T as [|x0 t IH]; cbn; intros m m' H k x Hk; [inversion H; subst; right; exact Hk|].
+  destruct (fullpath s x0) as [k0|] eqn:E0; [|discriminate].
+  destruct (IH _ _ H k x Hk) as [[H1 H2]|H1]; [left; auto|].
+  destruct (path_eq_dec k0 k) as [->|Hne].
+  - unfold rget, rset in H1. rewrite rget_rset_eq in H1. inversion H1; subst. left. auto.
+  - unfold rget, rset in H1. rewrite (rget_rset_ne _ _ _ _ Hne) in H1. right. exact H1.
+Qed.
+Lemma set_walk_other : forall s T m m', set_walk s T m = Some m' ->
+    forall k, (forall y, In y T -> fullpath s y <> Some k) -> rget k m' = rget k m.
+Proof.
+  intros s. induction T as [|x0 t IH]; cbn; intros m m' H k Hk; [inversion H; reflexivity|].
+  destruct (fullpath s x0) as [k0|] eqn:E0; [|discriminate].
+  rewrite (IH _ _ H k) by (intros y Hy; apply Hk; right; exact Hy).
+  assert (Hne : k0 <> k) by (intros ->; apply (Hk x0); [left; reflexivity | exact E0]).
+  unfold rget, rset. apply rget_rset_ne. exact Hne.
+Qed.
+Lemma set_walk_in : forall s T m m', set_walk s T m = Some m' ->
+    forall k x, (forall y, In y T -> fullpath s y = Some k -> y = x) ->
+                ((In x T /\ fullpath s x = Some k) \/ rget k m = Some x) -> rget k m' = Some x.
+Proof.
+  intros s. induction T as [|x0 t IH]; cbn; intros m m' H k x Hu Hx.
+  - inversion H; subst. destruct Hx as [[[] _]|Hx]. exact Hx.
+  - destruct (fullpath s x0) as [k0|] eqn:E0; [|discriminate].
+    apply (IH _ _ H k x); [intros y Hy; apply Hu; right; exact Hy|].
+    destruct Hx as [[[->|Hin] Hfx]|Hx].
+    + right. rewrite E0 in Hfx. inversion Hfx; subst. apply rget_rset_eq.
+    + left. auto.
+    + right. destruct (path_eq_dec k0 k) as [->|Hne].
+      * rewrite (Hu x0 (or_introl eq_refl) E0). apply rget_rset_eq.
+      * unfold rget, rset. rewrite (rget_rset_ne _ _ _ _ Hne). exact Hx.
+Qed.
+Lemma set_walk_fullpath : forall s T m m', set_walk s T m = Some m' -> forall x, In x T -> exists k, fullpath s x = Some k.
+Proof.
+  intros s. induction T as [|x0 t IH]; cbn; intros m m' H x Hx; [destruct Hx|].
+  destruct (fullpath s x0) as [k0|] eqn:E0; [|discriminate].
+  destruct Hx as [<-|Hx]; [eauto | eapply IH; eauto].
+Qed.
+Lemma set_walk_nodup : forall s T m m', set_walk s T m = Some m' -> NoDup (map fst m) -> NoDup (map fst m').
+Proof.
+  intros s. induction T as [|x0 t IH]; cbn; intros m m' H Hnd; [inversion H; subst; exact Hnd|].
+  destruct (fullpath s x0) as [k0|]; [|discriminate].
+  apply (IH _ _ H). apply nodup_aset; [exact path_eqb_eq | exact Hnd].
+Qed.
+
+Lemma find_free_spec : forall F used i j, find_free F used i = Some j -> used j = false.
+Proof.
+  induction F as [|F IH]; cbn; intros used i j H; [discriminate|].
+  destruct (used i) eqn:E; [eapply IH; exact H | inversion H; subst; exact E].
+Qed.
+
+Lemma fullpath_f_tight : forall F st o p, fullpath_f F st o = Some p -> fullpath_f (length p) st o = Some p.
+Proof.
+  induction F as [|F IH]; intros st o p H; [discriminate|]. cbn in H.
+  destruct (oparent (st o)) as [q|] eqn:Eq.
+  - destruct (fullpath_f F st q) as [pq|] eqn:E; [|discriminate]. inversion H; subst.
+    rewrite app_length. cbn [length]. replace (length pq + 1)%nat with (S (length pq)) by lia.
+    apply (fullpath_f_child_intro _ st o q); [exact Eq | apply (IH _ _ _ E)].
+  - inversion H; subst. cbn. rewrite Eq. reflexivity.
+Qed.
+
+Lemma dup_key_snoc : forall pq n i, dup_key (pq ++ [n]) i = pq ++ [dup_name n i].
+Proof. intros. unfold dup_key. rewrite removelast_last, last_last. reflexivity. Qed.
+Lemma dup_name_neq : forall n i, dup_name n i <> n.
+Proof.
+  intros [b l] i H. unfold dup_name in H. cbn in H. inversion H as [H1].
+  apply (f_equal (@length N)) in H1. rewrite app_length in H1. cbn in H1. lia.
+Qed.
+
+Lemma anc_inv : forall st a x, anc st a x -> a = x \/ exists q, oparent (st x) = Some q /\ anc st a q.
+Proof. intros st a x H. destruct H as [|x q Hq Ha]; [left; reflexivity | right; eauto]. Qed.
